@@ -46,6 +46,9 @@ class Sched(object):
     self.p_lock = None        # pre-emption probability at lock release
     self.file_p = {}          # file-id -> pre-emption probability override
     self.hot = {}             # (file-id, line) -> pre-emption probability override
+    self.tsteps = {}          # thread -> line steps executed
+    self.trigger = None       # (thread, its step count, thread to hand the baton to)
+    self.trigger_fired = False
 
   # ---- configuration -------------------------------------------------------
   def trace_file(self, path, fid):
@@ -110,6 +113,20 @@ class Sched(object):
       self.steps += 1
       if self.steps > self.STEP_CAP:
         self.finish('stepcap')
+      me = self.cur
+      n = self.tsteps.get(me, 0) + 1
+      self.tsteps[me] = n
+      trg = self.trigger
+      if trg is not None and trg[0] == me and n >= trg[1]:
+        # crash-point enumeration: hand the baton to the waiting thread exactly here
+        self.trigger = None
+        self.trigger_fired = True
+        self.ctx.log.add('trigger', me, frame.f_lineno)
+        tgt = self.th.get(trg[2])
+        if tgt is not None and tgt.alive and tgt.wake is None:
+          tgt.block = None
+          tgt.blocked_on = None
+          self._handoff(me, trg[2])
       fid = self.fids[frame.f_code.co_filename]
       p = self.hot.get((fid, frame.f_lineno)) if self.hot else None
       if p is None:
